@@ -4,6 +4,14 @@
   FALSE of the code (also with the C27 repair): `validate_log_for_vote` compares only the last
   index / term / commit, and logs can differ below the last entry (see C28), so a node whose log lacks
   a leader-committed entry wins an election. Witness: `C29_leader_completeness_counterexample`.
+
+  What IS guaranteed locally (proved for every node state and every request):
+  `C29_vote_requires_log_check` — a vote (and a pre-vote) is granted only if the voter's last
+  `log_index`, last `log_term` and `log_commit` are each ≤ the candidate's (a conjunction of three
+  comparisons, not Raft's lexicographic (term, index) order), only for a term above the voter's own, and
+  only from `Election` state or `Voted(t)` with `t` below the requested term;
+  `C29_grant_recorded` ties this to the cluster step and the grant history.
+  `C29_rule_is_conjunctive` shows the difference to the lexicographic rule on a concrete voter.
 -/
 import AgdbRaft.Model.Net
 
@@ -47,5 +55,120 @@ theorem C29_leader_completeness_counterexample : ¬ C29_leader_completeness_stat
 
 /-- Non-vacuity: the history of leader-committed entries is non-empty on a reachable state. -/
 example : c29State.lcommitted ≠ [] := by decide +kernel
+
+/-! ## what the vote check does guarantee -/
+
+theorem validateLogForVote_none {n : Node} {r : Request} (h : n.validateLogForVote r = none) :
+    n.loc.logIndex ≤ r.logIndex ∧ n.loc.logTerm ≤ r.logTerm ∧ n.loc.logCommit ≤ r.logCommit := by
+  unfold Node.validateLogForVote at h
+  split at h
+  · cases h
+  · omega
+
+/-- **The guarantee that exists.** `vote_request` answers OK only when the voter's last index, last
+term and commit index are each at most the candidate's, the requested term exceeds the voter's term,
+and the voter is in `Election` state or has voted only for a lower term. -/
+theorem C29_vote_requires_log_check (n : Node) (now : Nat) (r : Request) (hd : r.data = .vote)
+    (hok : (n.request now r).2.result = .ok) :
+    (n.loc.logIndex ≤ r.logIndex ∧ n.loc.logTerm ≤ r.logTerm ∧ n.loc.logCommit ≤ r.logCommit) ∧
+    n.term < r.term ∧ (n.state = .election ∨ ∃ t, n.state = .voted t ∧ t < r.term) ∧ n.hash = r.hash := by
+  unfold Node.request at hok
+  rw [hd] at hok
+  dsimp only at hok
+  unfold Node.voteRequest at hok
+  split at hok
+  · rename_i e he
+    unfold Node.validateHash at he
+    split at he <;> simp at he
+    subst he; simp at hok
+  · rename_i hhash
+    split at hok
+    · rename_i e he
+      unfold Node.validateVoteState at he
+      repeat' split at he
+      all_goals (simp at he; try (subst he; simp at hok))
+    · rename_i hstate
+      split at hok
+      · rename_i e he
+        unfold Node.validateTermForVote at he
+        split at he <;> simp at he
+        subst he; simp at hok
+      · rename_i hterm
+        split at hok
+        · rename_i e he
+          unfold Node.validateLogForVote at he
+          split at he <;> simp at he
+          subst he; simp [Node.logMismatch] at hok
+        · rename_i hlog
+          refine ⟨validateLogForVote_none hlog, ?_, ?_, ?_⟩
+          · unfold Node.validateTermForVote at hterm
+            split at hterm
+            · cases hterm
+            · omega
+          · unfold Node.validateVoteState at hstate
+            split at hstate
+            · cases hstate
+            · cases hstate
+            · cases hstate
+            · rename_i t hs
+              split at hstate
+              · cases hstate
+              · exact Or.inr ⟨t, hs, by omega⟩
+            · rename_i hs; exact Or.inl hs
+          · unfold Node.validateHash at hhash
+            split at hhash
+            · cases hhash
+            · rename_i h; exact Classical.not_not.mp h
+
+/-- The same check guards the pre-vote. -/
+theorem C29_prevote_requires_log_check (n : Node) (now : Nat) (r : Request)
+    (hok : (n.preVoteRequest now r).result = .ok) :
+    n.loc.logIndex ≤ r.logIndex ∧ n.loc.logTerm ≤ r.logTerm ∧ n.loc.logCommit ≤ r.logCommit := by
+  unfold Node.preVoteRequest at hok
+  split at hok
+  · rename_i e he
+    unfold Node.validateHash at he
+    split at he <;> simp at he
+    subst he; simp at hok
+  · split at hok
+    · simp at hok
+    · split at hok
+      · simp at hok
+      · split at hok
+        · rename_i e he
+          unfold Node.validateLogForVote at he
+          split at he <;> simp at he
+          subst he; simp [Node.logMismatch] at hok
+        · rename_i hlog; exact validateLogForVote_none hlog
+    · split at hok
+      · rename_i e he
+        unfold Node.validateLogForVote at he
+        split at he <;> simp at he
+        subst he; simp [Node.logMismatch] at hok
+      · rename_i hlog; exact validateLogForVote_none hlog
+
+/-- At the cluster level: delivering a vote request that is answered OK records the grant in the
+history, and the voter's log passed the check against the values carried by the request. -/
+theorem C29_grant_recorded (g : Global) (k : Nat) (r : Request) (n : Node)
+    (hm : g.msgs[k]? = some (.req r)) (hd : r.data = .vote) (hn : g.getNode? r.target = some n)
+    (hok : (n.request g.now r).2.result = .ok) :
+    (n.index, r.term, r.index) ∈ (step g (.deliver k)).1.grants ∧
+    n.loc.logIndex ≤ r.logIndex ∧ n.loc.logTerm ≤ r.logTerm ∧ n.loc.logCommit ≤ r.logCommit := by
+  refine ⟨?_, (C29_vote_requires_log_check n g.now r hd hok).1⟩
+  simp only [step, hm, hn]
+  rw [if_pos ⟨hd, hok⟩]
+  exact List.mem_cons_self
+
+/-- The rule is a conjunction, not the lexicographic (last term, last index) order of Raft: a voter
+whose log is longer but whose last term is older refuses a candidate with a newer last term
+(first conjunct), and accepts any candidate that dominates the three numbers — whatever lies
+below the last entry is never compared (which is what the counterexample exploits). -/
+theorem C29_rule_is_conjunctive :
+    let voter : Node := { (Node.new ⟨[⟨1, 1, 7, false⟩, ⟨2, 1, 8, false⟩], 2, 1, 0⟩ 2 3 clusterHash 100 100 300 Variant.fixed)
+      with state := .election }
+    let newerButShorter : Request := ⟨clusterHash, 0, 2, 5, 1, 4, 0, .vote⟩
+    let dominating : Request := ⟨clusterHash, 0, 2, 5, 2, 4, 0, .vote⟩
+    (voter.request 0 newerButShorter).2.result ≠ .ok ∧ (voter.request 0 dominating).2.result = .ok := by
+  decide +kernel
 
 end Raft
